@@ -10,6 +10,7 @@ CONSTANTS
   CanRead = {}
   CanPrune = {}
   CanForget = {"x"}
+  CanRewrite = {}
   CanTag = {"x"}
   Budget <- Budget2
   Variant = "tag_remove_first"
@@ -20,6 +21,7 @@ INVARIANTS
   IndexSound
   ReaderOK
   TagNeverLoses
+  RewriteNeverLoses
 PROPERTIES
   W1
   W2
